@@ -284,6 +284,16 @@ Definition note_created (time : Z) (cur : obs) (cr : list (bytes * N * Z)) : lis
   fold_left (fun acc e => match cr_find acc e with Some _ => acc | None => (s_chain e, s_id e, time / 1000) :: acc end)
             (all_entries cur) cr.
 
+(* a refund that has to be sent back to the originating chain fails (and is retried in the next block, nothing
+   changed) when the token is no longer listed there, or not listed at all any more *)
+Definition refund_may_fail (t : track) (e : ste) : bool :=
+  match id_to_token (tr_tokens t) (s_tid e) with
+  | None => true
+  | Some ti =>
+      if beqb (s_refund_chain e) [] || beqb (s_refund_chain e) b_hub then false
+      else match denom_to_token (tr_tokens t) (s_refund_chain e) (ti_denom ti) with None => true | Some _ => false end
+  end.
+
 Definition mon_C12_step (step : nat) (o : val) (prev cur : obs) (t : track) (cr : list (bytes * N * Z)) : list val :=
   let kind := op_kind o in
   if kind =? 2 then
@@ -304,7 +314,7 @@ Definition mon_C12_step (step : nat) (o : val) (prev cur : obs) (t : track) (cr 
     let gone := filter (fun e => negb (in_entries e (all_entries cur))) (ob_pool prev) in
     (* unbatched entries leave in EndBlocker only by expiry *)
     flat_map (fun e => if exp e then [] else [viol k_c12_early step [VB (s_chain e); vNat (s_id e)]]) gone
-    ++ flat_map (fun e => if exp e && in_entries e (ob_pool cur)
+    ++ flat_map (fun e => if exp e && in_entries e (ob_pool cur) && negb (refund_may_fail t e)
                           then [viol k_c12_expired step [VB (s_chain e); vNat (s_id e)]] else []) (ob_pool prev)
     ++ flat_map (fun e => refund_check step t prev cur e
                                        (Nat.eqb (length (filter (fun x => beqb (s_sender x) (s_sender e)) gone)) 1
@@ -405,6 +415,11 @@ Definition mon_C08_hub (c impl : val) : val :=
                                          else if N.ltb (b_timeout b) (ctr prev 5 (b_chain b)) then []
                                          else [viol k_c08_withdrawn step [VB (b_chain b); VB (b_ext b); vNat (b_nonce b); vNat (b_timeout b); vNat (ctr prev 5 (b_chain b))]])
                                gone
+                    else if op_kind o =? 6 then
+                      (* likewise at an EndBlocker: a batch may go only because it was executed or because a later batch of
+                         its own token was (the contract's nonce is per token); C13's predicate, reported for C08 *)
+                      map (fun v => match v with VL (_ :: r) => VL (k_c08_withdrawn :: r) | _ => v end)
+                          (filter (fun v => veqb (vnth 0 v) k_c13_alive) (mon_C13_step step o prev cur t))
                     else []), track_step o prev cur t))
                0 (vL (vnth 2 c)) (vL impl) empty_obs (track0 (vI (vnth 5 (vnth 0 c))))).
 
